@@ -126,7 +126,22 @@ func GetRules() []Rule {
 
 	ret := make([]Rule, 0, len(rules))
 	for _, rule := range rules {
-		ret = append(ret, *rule)
+		ret = append(ret, copyOfRule(rule))
+	}
+	return ret
+}
+
+// copyOfRule copies the rule together with its table of specific items: the table of the rule in force
+// is the one the controller looks values up in on every request, and a caller that edits what the
+// getters promise to be a copy would otherwise change the limits in force (and write to a map that
+// concurrent requests read).
+func copyOfRule(rule *Rule) Rule {
+	ret := *rule
+	if rule.SpecificItems != nil {
+		ret.SpecificItems = make(map[interface{}]int64, len(rule.SpecificItems))
+		for k, v := range rule.SpecificItems {
+			ret.SpecificItems[k] = v
+		}
 	}
 	return ret
 }
@@ -143,7 +158,7 @@ func GetRulesOfResource(res string) []Rule {
 
 	ret := make([]Rule, 0, len(resTcs))
 	for _, tc := range resTcs {
-		ret = append(ret, *tc.BoundRule())
+		ret = append(ret, copyOfRule(tc.BoundRule()))
 	}
 	return ret
 }
